@@ -10,6 +10,8 @@ use i_tree::key::tree::KeyExpTree;
 use std::fmt::Write as FmtWrite;
 
 pub const DEFAULT: i32 = -7;
+/// `now` of a session before any time has been supplied (new instance / after clear)
+pub const NO_TIME: i32 = i32::MIN;
 /// arenas above this size are reported by their size only (a snapshot would be hundreds of MB)
 pub const MAX_SNAPSHOT_SLOTS: usize = 50_000;
 
@@ -226,7 +228,7 @@ pub struct KeySession<'a, C: KeyColl> {
 
 impl<'a, C: KeyColl> KeySession<'a, C> {
     pub fn new(tr: &'a mut Trace, keys: i32, cap: usize, obs_every: u64) -> Self {
-        let mut s = KeySession { c: None, tr, mine: vec![], now: 0, keys, cap, obs_every, snap_every: 1, opcount: 0, version: 0, last_unwound: false, last_panicked: false };
+        let mut s = KeySession { c: None, tr, mine: vec![], now: NO_TIME, keys, cap, obs_every, snap_every: 1, opcount: 0, version: 0, last_unwound: false, last_panicked: false };
         s.reset(cap);
         s
     }
@@ -244,7 +246,7 @@ impl<'a, C: KeyColl> KeySession<'a, C> {
         let snap = c.snap_json();
         self.c = Some(c);
         self.mine.clear();
-        self.now = 0;
+        self.now = NO_TIME;
         let sep = if snap.is_empty() { "" } else { "," };
         self.tr.line(&format!("\"ev\":\"reset\",\"coll\":\"{}\",\"cap\":{},\"se\":{}{}{}", C::NAME, cap, self.snap_every, sep, snap));
     }
@@ -298,12 +300,12 @@ impl<'a, C: KeyColl> KeySession<'a, C> {
     pub fn load(&mut self, path: &[KOp], cap: usize) {
         self.cap = cap;
         self.mine.clear();
-        self.now = 0;
+        self.now = NO_TIME;
         // the replay is not logged call by call, but it is still the code under test: a panic inside
         // it must not take the harness down (journal mode records it as one pseudo call)
         self.tr.pre("\"op\":\"load-replay\",\"out\":\"aborted\"");
         let mut mine: Vec<(i32, i32)> = vec![];
-        let mut now = 0;
+        let mut now = NO_TIME;
         let o = observe(0, || {
             let mut c = C::make(cap);
             for op in path {
@@ -335,7 +337,7 @@ impl<'a, C: KeyColl> KeySession<'a, C> {
                     KOp::Clear => {
                         c.clear();
                         mine.clear();
-                        now = 0;
+                        now = NO_TIME;
                     }
                     KOp::Export { .. } => panic!("export inside a path"),
                 }
@@ -432,7 +434,7 @@ impl<'a, C: KeyColl> KeySession<'a, C> {
                             0i64
                         });
                         self.mine.clear();
-                        self.now = 0;
+                        self.now = NO_TIME;
                         o
                     }
                     KOp::Export { .. } => unreachable!(),
@@ -473,7 +475,7 @@ impl<'a, C: KeyColl> KeySession<'a, C> {
     /// all in-contract calls of the alphabet at the current state, for times now..=tmax
     pub fn alphabet(&mut self, tmax: i32, with_export: bool) -> Vec<KOp> {
         let mut v = vec![KOp::Empty];
-        for t in self.now..=tmax {
+        for t in self.now.max(0)..=tmax {
             for p in 0..=self.keys + 1 {
                 v.push(KOp::Lt { t, p });
                 v.push(KOp::Le { t, p });
@@ -589,7 +591,7 @@ pub fn run_faults<C: KeyColl>(tr: &mut Trace, paths: &[(usize, Vec<KOp>)], keys:
                 let unwound = s.last_unwound;
                 // the collection must still be usable: observe everything, then mutate again (also after
                 // the control run in which no callback panicked)
-                let t = s.now;
+                let t = s.now.max(0);
                 for p in 0..=keys + 1 {
                     s.apply(&KOp::Get { t, k: p }, 0);
                 }
@@ -642,7 +644,11 @@ pub fn run_random<C: KeyColl>(tr: &mut Trace, cfg: &RandCfg) {
     s.reset(s.cap);
     let mut in_seg = 0u64;
     let mut done = 0u64;
-    let mut clock = 0i32;
+    // the caller's clock starts anywhere (sweep-line coordinates are often negative) and restarts
+    // there after a clear
+    let bases = [0i32, 0, -1000, 1_000_000, -2_000_000_000];
+    let mut base = bases[(rng.next() % 5) as usize];
+    let mut clock = base;
     while done < cfg.steps && !s.tr.full() {
         if in_seg >= cfg.seg_len {
             // end the segment with an export (the collection is consumed), then start afresh;
@@ -657,7 +663,8 @@ pub fn run_random<C: KeyColl>(tr: &mut Trace, cfg: &RandCfg) {
                 s.apply(&KOp::By { t, th: 2 * cfg.keys + 1 }, 0);
                 s.apply(&KOp::Empty, 0);
             }
-            clock = 0;
+            base = bases[(rng.next() % 5) as usize];
+            clock = base;
             s.apply(&KOp::Export { t }, 0);
             s.reset(caps[(rng.next() % 5) as usize]);
             in_seg = 0;
@@ -667,9 +674,7 @@ pub fn run_random<C: KeyColl>(tr: &mut Trace, cfg: &RandCfg) {
         in_seg += 1;
         done += 1;
         // the caller's clock: it only reaches the collection as the argument of a call
-        if s.now < clock {
-            // (a call without a time argument came in between)
-        } else {
+        if s.now != NO_TIME && s.now > clock {
             clock = s.now;
         }
         if rng.chance(1, 4) {
@@ -711,7 +716,7 @@ pub fn run_random<C: KeyColl>(tr: &mut Trace, cfg: &RandCfg) {
             17 => s.apply(&KOp::Empty, 0),
             18 => {
                 if cfg.clears && rng.chance(1, cfg.clear_den.max(1)) {
-                    clock = 0; // the clock may restart after a clear
+                    clock = base; // the clock may restart after a clear
                     s.apply(&KOp::Clear, 0)
                 } else {
                     s.apply(&KOp::Le { t, p: k }, arm)
@@ -722,7 +727,8 @@ pub fn run_random<C: KeyColl>(tr: &mut Trace, cfg: &RandCfg) {
         if !alive {
             s.reset(caps[(rng.next() % 5) as usize]);
             in_seg = 0;
-            clock = 0;
+            base = bases[(rng.next() % 5) as usize];
+            clock = base;
         }
     }
 }
